@@ -154,7 +154,14 @@ func (fv *FuncVerifier) execStmt(st *State, env *Env, s ast.Stmt) []Outcome {
 			}
 		}
 		for _, r := range x.Results {
-			res = append(res, fv.eval(st, env, r))
+			v := fv.eval(st, env, r)
+			if rt := env.info.TypeOf(r); rt != nil && v.Sort == SRef {
+				if _, isStruct := rt.Underlying().(*types.Struct); isStruct {
+					// a struct VALUE (an opaque reference in the model) is never nil - also not once boxed into an interface result
+					st.Assume(Not(App(SBool, "=", v, Null)))
+				}
+			}
+			res = append(res, v)
 		}
 		// remember static types for interface conversion at the return handler
 		return []Outcome{{st: st, kind: okReturn, results: res, pos: x.Return}}
@@ -1921,7 +1928,10 @@ func (fv *FuncVerifier) execRange(st *State, env *Env, x *ast.RangeStmt, label s
 					st.Assume(fv.typeInv(k, mt.Key()))
 					st.Assume(fv.typeInv(w.MapGetRaw(m, k), mt.Elem()))
 				}
-				return incr(fv.execBlock(st, env, x.Body.List))
+				fv.mapRangeDepth++
+				outs := incr(fv.execBlock(st, env, x.Body.List))
+				fv.mapRangeDepth--
+				return outs
 			},
 			func(st *State) []Term { return []Term{Le(IntLit(0), getIt(st)), Le(getIt(st), w.SeqLen(ks))} })
 	case *types.Signature:
@@ -1969,6 +1979,7 @@ func (fv *FuncVerifier) execRangeFunc(st *State, env *Env, x *ast.RangeStmt, lab
 		}
 	}
 	if !iter.pure {
+		fv.orderLeak("an iterator with side effects is run", x.Pos())
 		// iterating may have side effects of its own
 		if iter.hasPres {
 			ws.havocAllWith(iter.presPfx, iter.presExc)
